@@ -281,7 +281,12 @@ func (lf *linFn) lenForm(s ssa.Value, d int) *lin {
 func (lf *linFn) uniqueStore(addr ssa.Value, use ssa.Instruction) *ssa.Store {
 	if localRoot(addr) == nil {
 		if _, isAlloc := addr.(*ssa.Alloc); !isAlloc {
-			return nil
+			// a field of an object reached from a parameter (`cp.EntryExits = make(..)` followed by `cp.EntryExits[i]`):
+			// forwarded when the field is assigned once in the function and nothing the function calls may write it
+			fa, isFA := addr.(*ssa.FieldAddr)
+			if !isFA || !lf.fieldOnlyWrittenHere(fa) {
+				return nil
+			}
 		}
 	}
 	var found *ssa.Store
@@ -552,6 +557,15 @@ func (lf *linFn) proveAt(goal *lin, in ssa.Instruction, depth int) bool {
 		return true
 	}
 	added := false
+	// a value of an 8- or 16-bit unsigned type is bounded by its type
+	for x, q := range goal.c {
+		if q.Sign() < 0 && !x.isLen {
+			if bits, signed, ok := intKind(x.v.Type()); ok && !signed && bits <= 16 {
+				facts = append(facts, linConst(int64(1)<<uint(bits)-1).sub(linAtom(x)))
+				added = true
+			}
+		}
+	}
 	// a quotient by a positive constant, q = a / k with a >= 0, satisfies k*q <= a
 	{
 		seen := map[atom]bool{}
@@ -947,6 +961,46 @@ func (px *linProver) writes(f *ssa.Function) *fieldWrites {
 	return px.wr[f]
 }
 
+// fieldOnlyWrittenHere: fa selects a field, through a pointer parameter, that no callee of the function may write.
+func (lf *linFn) fieldOnlyWrittenHere(fa *ssa.FieldAddr) bool {
+	root := ssa.Value(fa)
+	for {
+		x, ok := root.(*ssa.FieldAddr)
+		if !ok {
+			break
+		}
+		root = x.X
+	}
+	if _, isParam := root.(*ssa.Parameter); !isParam {
+		return false
+	}
+	fld := fieldOf(fa)
+	if fld == nil {
+		return false
+	}
+	for _, b := range lf.fn.Blocks {
+		for _, in := range b.Instrs {
+			call, ok := in.(ssa.CallInstruction)
+			if !ok {
+				continue
+			}
+			if _, isB := call.Common().Value.(*ssa.Builtin); isB {
+				continue
+			}
+			cs := lf.px.p.Callees(call)
+			if len(cs) == 0 && call.Common().StaticCallee() == nil {
+				return false
+			}
+			for _, c := range cs {
+				if w := lf.px.writes(c); w != nil && (w.all || w.fields[fld] || w.whole[deref(fa.X.Type()).String()]) {
+					return false
+				}
+			}
+		}
+	}
+	return true
+}
+
 // stableField: the field selected by fa (through a pointer that is a parameter of the function, possibly through more
 // field selections) is not written by the function or its callees, so that two loads of it read the same value.
 func (lf *linFn) stableField(fa *ssa.FieldAddr) bool {
@@ -1098,6 +1152,20 @@ func ruleGen(p *Prog, r *Report, rule string, sel func(f *ssa.Function) bool, ex
 // (each was proved when the set was frozen); any other function with an underivable access is reported as a "not claimed"
 // instance and decides nothing.
 func ruleGenX(p *Prog, r *Report, rule string, sel func(f *ssa.Function) bool, excluded map[string]string, claimed map[string]bool, floor int) {
+	ruleGenY(p, r, rule, sel, excluded, claimed, floor, false)
+}
+
+// ruleGenReaders: R-GEN where, inside every function that takes a []byte parameter (a reader), the accesses to slices of
+// ANY element type are obligations: a reader fills arrays whose sizes come from the data it reads, so an index that the
+// function's own tests do not bound is exactly the defect the property is about.
+func ruleGenReaders(p *Prog, r *Report, rule string, sel func(f *ssa.Function) bool, excluded map[string]string, floor int) {
+	ruleGenY(p, r, rule, sel, excluded, nil, floor, true)
+}
+
+func ruleGenY(p *Prog, r *Report, rule string, sel func(f *ssa.Function) bool, excluded map[string]string, claimed map[string]bool, floor int, readersAll bool) {
+	if readersAll {
+		defer func() { allSlices = false }()
+	}
 	px := newLinProver(p)
 	var fns []*ssa.Function
 	for _, f := range p.ModFns() {
@@ -1115,6 +1183,9 @@ func ruleGenX(p *Prog, r *Report, rule string, sel func(f *ssa.Function) bool, e
 	px.derivePre(fns)
 	nObl, nFn := 0, 0
 	for _, f := range fns {
+		if readersAll {
+			allSlices = isReader(f)
+		}
 		lf := px.ctx(f)
 		lf.extra, lf.extraAt = nil, nil
 		lf.addCallFacts()
@@ -1126,6 +1197,45 @@ func ruleGenX(p *Prog, r *Report, rule string, sel func(f *ssa.Function) bool, e
 		key := p.FnName(f)
 		if why, ok := excluded[key]; ok {
 			r.Instance(rule+"(not claimed)", key+": "+why)
+			// the exclusion covers the accesses that were underivable when the function was reviewed (named by the indexed
+			// value); any OTHER access of the function is still an obligation
+			tolerated := map[string]bool{}
+			for _, d := range rgenNotClaimedAccess[key] {
+				tolerated[d] = true
+			}
+			pre := px.pre[f]
+			var badX *linObl
+			for i := range obls {
+				o := obls[i]
+				if lf.proveAt(o.goal, o.in, 0) || o.sgn != nil && px.nn.nonNeg(o.sgn, o.in, 0) {
+					continue
+				}
+				if len(o.goal.c) == 1 && pre != nil {
+					okPre := false
+					for pi, k := range pre {
+						if q, ok := o.goal.c[atom{f.Params[pi], true}]; ok && q.Cmp(ratOne) == 0 && o.goal.k.IsInt() && -o.goal.k.Num().Int64() <= k {
+							okPre = true
+						}
+					}
+					if okPre {
+						continue
+					}
+				}
+				if !tolerated[oblDescr(o)] {
+					badX = &obls[i]
+					break
+				}
+			}
+			if genAccessKeys != nil {
+				for i := range obls {
+					o := obls[i]
+					if !(lf.proveAt(o.goal, o.in, 0) || o.sgn != nil && px.nn.nonNeg(o.sgn, o.in, 0)) {
+						genAccessKeys(key, oblDescr(o))
+					}
+				}
+			} else if badX != nil {
+				r.Bad(rule, key+"/"+oblDescr(*badX), p.IPos(badX.in), fmt.Sprintf("%s: the required %s >= 0 does not follow from the length tests that dominate this access, and the access is not among those reviewed when %s was listed as not claimed: truncated or corrupted input panics here", badX.what, badX.goal.String(), key))
+			}
 			continue
 		}
 		nFn++
@@ -1196,3 +1306,33 @@ func ruleGenX(p *Prog, r *Report, rule string, sel func(f *ssa.Function) bool, e
 	r.Count("length_obligations", nObl)
 	r.Floor(rule, nFn, floor)
 }
+
+// isReader: a function that takes input bytes: a []byte parameter (or receiver field access is not considered).
+func isReader(f *ssa.Function) bool {
+	for _, prm := range f.Params {
+		if s, ok := prm.Type().Underlying().(*types.Slice); ok {
+			if b, ok := s.Elem().Underlying().(*types.Basic); ok && b.Kind() == types.Uint8 {
+				return true
+			}
+		}
+	}
+	return false
+}
+
+// oblDescr names the value an obligation is about (see sliceDescr); "" when it has no stable name.
+func oblDescr(o linObl) string {
+	switch in := o.in.(type) {
+	case *ssa.IndexAddr:
+		return sliceDescr(in.X, 0)
+	case *ssa.Slice:
+		return sliceDescr(in.X, 0)
+	case *ssa.Call:
+		if n := len(in.Common().Args); n > 0 {
+			return sliceDescr(in.Common().Args[n-1], 0)
+		}
+	}
+	return ""
+}
+
+// genAccessKeys, when set (vsa rgenkeys), receives the underivable accesses of the not-claimed functions.
+var genAccessKeys func(fn, descr string)
